@@ -8,6 +8,7 @@
    (recording transport), logging character codes in and out.
 3. TLC (OciRefTrace) re-evaluates the grammar on every logged string and rejects any logged
    output that differs (direction B); on the random strings it also checks the model's laws."""
+import collections
 import json
 import os
 import random
@@ -76,7 +77,8 @@ def validate_trace(ctx, module, cfg, trace, consts=None, timeout=900, first_line
         last = 'rc=%s wall=%.1fs\n%s\n...%s' % (r['rc'], r['wall'], vlib.tlc_errors(out), out[-1500:])
         if 'Assert' in out or 'specification error' in out or 'arsing' in vlib.tlc_errors(out):
             break          # deterministic: an error of the specification itself
-        ctx.log('trace validation of %s gave no verdict (attempt %d), retrying' % (os.path.basename(trace), attempt + 1))
+        ctx.log('trace validation of %s gave no verdict (attempt %d), retrying: rc=%s %s' % (
+            os.path.basename(trace), attempt + 1, r['rc'], ' | '.join(out.strip().splitlines()[-3:])[:300]))
         time.sleep(2 + 3 * attempt)
     raise vlib.Machinery('trace validation %s on %s broke:\n%s' % (module, trace, last))
 
@@ -146,7 +148,17 @@ def sample_events(trace, want=('ref', 'route', 'client'), skip=0):
 def canary(ctx, trace):
     """Corrupts one output field of an accepted scenario; TLC must reject it (else the trace
     specification is not constraining that field: machinery failure)."""
-    hdr, scen = vlib.split_scenarios(trace)
+    d = ctx.sub('canary')
+    # the tail of the trace (macro / parts cases and random strings) is enough to pick from
+    with open(trace) as f:
+        hdr0 = f.readline()
+        tail = collections.deque(f, 30000)
+    small = os.path.join(d, 'tail.ndjson')
+    with open(small, 'w') as f:
+        f.write(hdr0)
+        f.writelines(tail)
+    hdr, scen = vlib.split_scenarios(small)
+    scen = [s for s in scen if '"op":"reset"' in s[0]]
     rnd = random.Random(ctx.seed)
     picks = {}
     for s in scen:
@@ -164,7 +176,6 @@ def canary(ctx, trace):
             break
     if len(picks) < 4:
         raise vlib.Machinery('canary: no suitable events found (%s)' % sorted(picks))
-    d = ctx.sub('canary')
     for name, (s, l, how) in sorted(picks.items()):
         e = json.loads(l)
         if how == 'tag':
@@ -200,7 +211,7 @@ def run(ctx):
     #    event set in the quick tier), then seeded-random and mutated strings
     vh = vlib.build_harness(ctx)
     trace = os.path.join(ctx.sub('traces'), 'ref.ndjson')
-    st = run_ref(ctx, vh, trace, cases=cf, n=1500 if quick else 60000, seed=ctx.seed, level=2, lightmax=8 if quick else -1)
+    st = run_ref(ctx, vh, trace, cases=cf, n=1500 if quick else 60000, seed=ctx.seed, level=2, lightmax=8)
     nstr, nev = st['strings'], st['events']
     traces = [trace]
     count_ops(ctx, trace)
@@ -220,7 +231,7 @@ def run(ctx):
         dict(recorded_events=sample_events(trace, skip=len(short))),
         dict(recorded_random_events=sample_events(trace, skip=max(0, nev - 3000)))] if list(x.values())[0]]
     # 3. TLC judges every recorded output against the grammar
-    vlib.judge_traces(ctx, MODULE, CFG, traces, shard_lines=max(6000, nev // vlib.NCPU + 1), label='ociref/ociserver/ociclient vs OciRef')
+    vlib.judge_traces(ctx, MODULE, CFG, traces, shard_lines=min(40000, max(6000, nev // vlib.NCPU + 1)), label='ociref/ociserver/ociclient vs OciRef')
     if not quick or os.environ.get('VERIF_CANARY'):
         canary(ctx, trace)
     ctx.assumptions += [
